@@ -468,6 +468,32 @@ func c17Gen(r *rand.Rand, n int, tier string, emit func(...string)) {
 	for i := 0; i < n; i++ {
 		c17GenOne(r, emit)
 	}
+	if tier == "thorough" {
+		// exhaustive small scope around the session table: one peer, session ids 1..4, requests
+		// for 0 or 1 chunk (limit 2 items), every history of length <= 5
+		header := strings.Fields("2 1000 100 1000 4 6 0 1 1 1 1 1 2 1 1 3 1 1 4 1 1 5 1 1")
+		var syms [][]string
+		for sid := 1; sid <= 4; sid++ {
+			for _, ch := range []string{"0", "1"} {
+				syms = append(syms, []string{"r", "1", strconv.Itoa(sid), "0", "9", "2", "100", ch})
+			}
+		}
+		syms = append(syms, []string{"u", "1"})
+		var rec func(prefix []string, depth int)
+		rec = func(prefix []string, depth int) {
+			if depth > 0 {
+				emit(prefix...)
+			}
+			if depth == 5 {
+				return
+			}
+			for _, sy := range syms {
+				next := append(append(append([]string{}, prefix...), ";"), sy...)
+				rec(next, depth+1)
+			}
+		}
+		rec(header, 0)
+	}
 }
 
 func init() {
